@@ -241,8 +241,8 @@ def factory(ns, props, model_print=True, **kw):
                         obs.append(oblige(eng, 'rejections use the documented error families', True, mk))
                     elif not exc_in(out, ('SignatureError',)):
                         obs.append(oblige(eng, 'insufficient signatures on well-formed arguments are reported as SignatureError', args_ok, mk))
-            if 'C12' in props and any(e['kind'] in ('arg_mutation', 'global_store', 'global_mutation') for e in eng.events):
-                obs.append(oblige(eng, 'verification does not modify its arguments or module state', True, mk))
+            if 'C12' in props and any(e['kind'] == 'arg_mutation' for e in eng.events):
+                obs.append(oblige(eng, 'verification does not modify its arguments', True, mk))
             w = mk(m)
             w['predicted'] = predicted(out)
             reach = ['accepts'] if is_ret(out) else ['rejects:' + out[1]]
